@@ -476,8 +476,14 @@ class OExpr:
         self.oog("call of a value of kind %s" % k)
 
 
+# accounted, not translated: what a unit must contain besides its translated statements (text with the blanks removed: number of times)
+REQUIRED_TEXT = {"factor_masked": {"usingmmat=Eigen::Map<mat>;": 1, "usingEigen::indexing::all;": 1, "min_rcond=1;": 1,
+                                   "min_rcond=std::min(R̅LU.rcond(),min_rcond);": 2, "min_rcond=": 3}}
+
+
 class OHooks(sx.Hooks):
     """client side of OExpr / OExec; one instance per unit"""
+    known_usings = ("using mmat =Eigen::Map <mat >", "using Eigen::indexing::all")
 
     def __init__(self, layout=None, pfsig=None, callables=(), qrmap=None):
         self.layout, self.pfsig, self.callables, self.qrmap = layout or {}, pfsig or {}, set(callables), qrmap or {}
@@ -1104,6 +1110,10 @@ def unit_function(repo, rel, struct, fname, gname, dims_from_dim=False):
     st = struct_text(src, struct, what)
     ptext, body = sx.find_function_body(st, r"\b(?:void|real_t)\s+%s\s*\(" % fname, what)
     rty = re.search(r"\b(void|real_t)\s+%s\s*\(" % fname, st).group(1)
+    squeezed = "".join(sx.nfc(body).split())
+    for text, n in REQUIRED_TEXT.get(fname, {}).items():
+        if squeezed.count(sx.nfc(text)) != n:
+            raise OutOfGrammar("%s: `%s` occurs %d times, expected %d" % (what, text, squeezed.count(sx.nfc(text)), n))
     body = preprocess(body, what)
     ast = sx.parse_body(body, what)
     L = layout(repo) if not dims_from_dim else {}
